@@ -58,16 +58,16 @@ fn one_hash(idx: usize, seed: u64, local_pk: secp256k1::PublicKey, cfg: &SimCfg,
     let need = (amount as u128 + fee_of(cfg, amount)) as u64;
     let mut htlcs = vec![];
     for k in 0..shape.n_htlcs {
-        let am = if shape.kind == 1 || shape.kind == 5 {
+        let am = if shape.kind == 1 || shape.kind == 5 || (shape.kind == 6 && k > 0) {
             need / 3
-        } else if shape.n_htlcs == 1 {
+        } else if shape.n_htlcs == 1 || shape.kind == 6 {
             need
         } else if k == 0 {
             need / 2
         } else {
             need - need / 2
         };
-        let rel = if (shape.kind == 2 && k == shape.n_htlcs - 1) || shape.kind == 5 { cfg.policy_delta as u32 - 1 } else { cfg.policy_delta as u32 + 50 + k as u32 };
+        let rel = if (shape.kind == 2 && k == shape.n_htlcs - 1) || shape.kind == 5 || (shape.kind == 6 && k > 0) { cfg.policy_delta as u32 - 1 } else { cfg.policy_delta as u32 + 50 + k as u32 };
         let expiry = cfg.start_height + rel;
         let amt = if shape.amountless { AmtField::Bytes(tu64(amount)) } else { AmtField::Absent };
         let metadata = Metadata::Tramp { invoice: inv.clone(), amt, extra_before: vec![], extra_after: vec![] };
@@ -183,7 +183,13 @@ fn b_trace(r: &RunResult, b_hex: &str) -> (Vec<String>, Vec<(String, u64)>) {
     (calls, answers)
 }
 
-pub const FREEZE_POINTS: [(&str, u64, u8); 11] = [
+pub const FREEZE_POINTS: [(&str, u64, u8); 15] = [
+    // A: a part that completes the amount, then one that fails the expiry test (ready and
+    // fail both signalled to a lifecycle that is stuck)
+    ("listdatastore", 0, 6),
+    ("datastore", 0, 6),
+    ("datastore", 1, 6),
+    ("pay", 0, 6),
     // A consists of two parts that both fail the expiry test while its lifecycle is stuck
     ("listdatastore", 0, 4),
     ("timer", 0, 4),
@@ -271,6 +277,7 @@ pub fn run_pair(st: &mut C14Stats, shape: &BShape, script: &Script, fp: (&'stati
     let a_shape = match fp.2 {
         3 => BShape { n_htlcs: 1, kind: 1, amountless: false },
         4 => BShape { n_htlcs: 2, kind: 5, amountless: false },
+        6 => BShape { n_htlcs: 2, kind: 6, amountless: false },
         _ => BShape { n_htlcs: 1, kind: 0, amountless: false },
     };
     let (own_outcome, own_before) = match fp.2 {
